@@ -128,10 +128,24 @@ structure PState where
   tzoffsetto : Option Int := none
   rrulelines : List (List Char) := []
   tzname : Option (List Char) := none
-  /-- ghost: the recurrence lines of every component closed so far (each is passed to `rrulestr`
-      by the real code at that point) -/
-  log : List (List (List Char)) := []
-  deriving Repr, Inhabited
+  deriving DecidableEq, Repr, Inhabited
+
+/-- what `_parse_rfc` sees of `rrule.rrulestr("\n".join(lines), compatible=True, ignoretz=True, cache=True)`: the call may
+    raise (a malformed rule; since fix D-C01-interval also a rule whose INTERVAL is below 1, which used to load and then made every
+    lookup spin forever); nothing of the rule set it returns is read by `_parse_rfc` (the list is the `_interval`s of its rules,
+    kept for the translator's representation of the object).  The recurrence itself is C13 ∘ C01. -/
+abbrev RRuleLib := List (List Char) → Py.R (List Int)
+
+/-- the library that accepts every group of lines (the driver's `ical.parse`: the harness asks the real
+    `rrulestr` about the groups afterwards, see `rruleCalls`) -/
+def acceptAll : RRuleLib := fun _ => .ok []
+
+/-- `rr = rrulestr(lines)`, called only when there are lines -/
+def compRules (lib : RRuleLib) (lines : List (List Char)) : Py.R Unit :=
+  if lines.isEmpty then .ok () else
+  match lib lines with
+  | .error e => .error e
+  | .ok _ => .ok ()
 
 def lit (x : String) : List Char := x.toList
 
@@ -141,75 +155,112 @@ def putVtz (vs : List VTz) (v : VTz) : List VTz :=
 
 def truthy (o : Option (List Char)) : Bool := match o with | some (_ :: _) => true | _ => false
 
-def stepLine (st : PState) (line : List Char) : Py.R PState :=
+/-- `BEGIN:<value>` inside a VTIMEZONE: opens a component and resets every per-component local -/
+def beginComp (st : PState) (value : List Char) : Py.R PState :=
+  if value == lit "STANDARD" || value == lit "DAYLIGHT" then
+    .ok { st with comptype := some value, founddtstart := false, tzoffsetfrom := none,
+                  tzoffsetto := none, rrulelines := [], tzname := none }
+  else .error .ValueError
+
+/-- `END:VTIMEZONE` -/
+def closeZone (st : PState) : Py.R PState :=
+  if truthy st.comptype then .error .ValueError
+  else if !truthy st.tzid then .error .ValueError
+  else if st.comps.isEmpty then .error .ValueError
+  else .ok { st with vtz := putVtz st.vtz { tzid := st.tzid.getD [], comps := st.comps }, invtz := false }
+
+/-- `END:<comptype>` -/
+def closeComp (lib : RRuleLib) (st : PState) (value : List Char) : Py.R PState :=
+  if !st.founddtstart then .error .ValueError else
+  match st.tzoffsetfrom, st.tzoffsetto with
+  | some f, some t =>
+    match compRules lib st.rrulelines with
+    | .error e => .error e
+    | .ok _ =>
+      let c : Comp := Comp.mk f t (value == lit "DAYLIGHT") st.tzname st.rrulelines
+      .ok { st with comps := st.comps ++ [c], comptype := none }
+  | _, _ => .error .ValueError
+
+/-- a property line inside a component -/
+def compProp (st : PState) (line name : List Char) (parms : List (List Char)) (value : List Char) : Py.R PState :=
+  if name == lit "DTSTART" then
+    if parms.all (· == lit "VALUE=DATE-TIME") then
+      .ok { st with rrulelines := st.rrulelines ++ [line], founddtstart := true }
+    else .error .ValueError
+  else if name == lit "RRULE" || name == lit "RDATE" || name == lit "EXRULE" || name == lit "EXDATE" then
+    .ok { st with rrulelines := st.rrulelines ++ [line] }
+  else if name == lit "TZOFFSETFROM" then
+    if !parms.isEmpty then .error .ValueError else
+      match parseOffset value with
+      | .ok v => .ok { st with tzoffsetfrom := some v }
+      | .error e => .error e
+  else if name == lit "TZOFFSETTO" then
+    if !parms.isEmpty then .error .ValueError else
+      match parseOffset value with
+      | .ok v => .ok { st with tzoffsetto := some v }
+      | .error e => .error e
+  else if name == lit "TZNAME" then
+    if !parms.isEmpty then .error .ValueError else .ok { st with tzname := some value }
+  else if name == lit "COMMENT" then .ok st
+  else .error .ValueError
+
+/-- a property line of the VTIMEZONE itself -/
+def zoneProp (st : PState) (name : List Char) (parms : List (List Char)) (value : List Char) : Py.R PState :=
+  if name == lit "TZID" then
+    if !parms.isEmpty then .error .ValueError else .ok { st with tzid := some value }
+  else if name == lit "TZURL" || name == lit "LAST-MODIFIED" || name == lit "COMMENT" then .ok st
+  else .error .ValueError
+
+/-- the body of the line loop once the line is split into the upper-cased property name, its parameters and the value -/
+def stepCore (lib : RRuleLib) (st : PState) (line name : List Char) (parms : List (List Char)) (value : List Char) :
+    Py.R PState :=
+  if st.invtz then
+    if name == lit "BEGIN" then beginComp st value
+    else if name == lit "END" then
+      if value == lit "VTIMEZONE" then closeZone st
+      else if some value == st.comptype then closeComp lib st value
+      else .error .ValueError
+    else if truthy st.comptype then compProp st line name parms value
+    else zoneProp st name parms value
+  else if name == lit "BEGIN" && value == lit "VTIMEZONE" then
+    .ok { st with tzid := none, comps := [], invtz := true }      -- per-zone locals reset: nothing leaks from the zone before
+  else .ok st
+
+def stepLineW (lib : RRuleLib) (st : PState) (line : List Char) : Py.R PState :=
   if line.isEmpty then .ok st else
   match splitColon1 line with
   | none => .error .ValueError                       -- `name, value = line.split(':', 1)`
   | some (name0, value) =>
     let parms0 := splitOnChar ';' name0
-    let name := upper (parms0.headD [])
-    let parms := parms0.drop 1
-    if st.invtz then
-      if name == lit "BEGIN" then
-        if value == lit "STANDARD" || value == lit "DAYLIGHT" then
-          .ok { st with comptype := some value, founddtstart := false, tzoffsetfrom := none,
-                        tzoffsetto := none, rrulelines := [], tzname := none }
-        else .error .ValueError
-      else if name == lit "END" then
-        if value == lit "VTIMEZONE" then
-          if truthy st.comptype then .error .ValueError
-          else if !truthy st.tzid then .error .ValueError
-          else if st.comps.isEmpty then .error .ValueError
-          else .ok { st with vtz := putVtz st.vtz { tzid := st.tzid.getD [], comps := st.comps }, invtz := false }
-        else if some value == st.comptype then
-          if !st.founddtstart then .error .ValueError else
-          match st.tzoffsetfrom, st.tzoffsetto with
-          | some f, some t =>
-            let c : Comp := Comp.mk f t (value == lit "DAYLIGHT") st.tzname st.rrulelines
-            .ok { st with comps := st.comps ++ [c], comptype := none, log := st.log ++ [st.rrulelines] }
-          | _, _ => .error .ValueError
-        else .error .ValueError
-      else if truthy st.comptype then
-        if name == lit "DTSTART" then
-          if parms.all (· == lit "VALUE=DATE-TIME") then
-            .ok { st with rrulelines := st.rrulelines ++ [line], founddtstart := true }
-          else .error .ValueError
-        else if name == lit "RRULE" || name == lit "RDATE" || name == lit "EXRULE" || name == lit "EXDATE" then
-          .ok { st with rrulelines := st.rrulelines ++ [line] }
-        else if name == lit "TZOFFSETFROM" then
-          if !parms.isEmpty then .error .ValueError else do
-            let v ← parseOffset value
-            .ok { st with tzoffsetfrom := some v }
-        else if name == lit "TZOFFSETTO" then
-          if !parms.isEmpty then .error .ValueError else do
-            let v ← parseOffset value
-            .ok { st with tzoffsetto := some v }
-        else if name == lit "TZNAME" then
-          if !parms.isEmpty then .error .ValueError else .ok { st with tzname := some value }
-        else if name == lit "COMMENT" then .ok st
-        else .error .ValueError
-      else
-        if name == lit "TZID" then
-          if !parms.isEmpty then .error .ValueError else .ok { st with tzid := some value }
-        else if name == lit "TZURL" || name == lit "LAST-MODIFIED" || name == lit "COMMENT" then .ok st
-        else .error .ValueError
-    else if name == lit "BEGIN" && value == lit "VTIMEZONE" then
-      .ok { st with tzid := none, comps := [], invtz := true }
-    else .ok st
+    stepCore lib st line (upper (parms0.headD [])) (parms0.drop 1) value
 
-/-- `tzical._parse_rfc(text)` up to (not including) `rrulestr` of each component's lines -/
-def parseRfc (text : List Char) : Py.R (List VTz) :=
+/-- the line step with a recurrence library that accepts everything -/
+def stepLine (st : PState) (line : List Char) : Py.R PState := stepLineW acceptAll st line
+
+/-- `tzical._parse_rfc(text)` with the recurrence library as a parameter: `self._vtz` at the end -/
+def parseRfcW (lib : RRuleLib) (text : List Char) : Py.R (List VTz) :=
   let lines := splitLines text
   if lines.isEmpty then .error .ValueError else
-  match (unfold lines).foldlM stepLine ({} : PState) with
+  match (unfold lines).foldlM (stepLineW lib) ({} : PState) with
   | .ok st => .ok st.vtz
   | .error e => .error e
 
-/-- ghost view: the recurrence-line groups handed to `rrulestr`, in order (empty groups are not passed) -/
+/-- `tzical._parse_rfc(text)` up to (not including) `rrulestr` of each component's lines -/
+def parseRfc (text : List Char) : Py.R (List VTz) := parseRfcW acceptAll text
+
+/-- ghost view: the recurrence-line groups handed to `rrulestr`, in order: a component was closed exactly when
+    the component list grew by one, and the group is that component's collected lines -/
 def rruleCalls (text : List Char) : List (List (List Char)) :=
-  match (unfold (splitLines text)).foldlM stepLine ({} : PState) with
-  | .ok st => st.log
-  | .error _ => []
+  let r := (unfold (splitLines text)).foldl (fun (acc : Option PState × List (List (List Char))) line =>
+    match acc.1 with
+    | none => acc
+    | some st =>
+      match stepLine st line with
+      | .ok st' => (some st', if st'.comps.length == st.comps.length + 1 then acc.2 ++ [st.rrulelines] else acc.2)
+      | .error _ => (none, acc.2)) (some ({} : PState), [])
+  match r.1 with
+  | some _ => r.2
+  | none => []
 
 /-- `tzical.get(tzid)`: index of the zone, `.ok none` = `None` (unknown id) -/
 def get (vs : List VTz) (tzid : Option (List Char)) : Py.R (Option Nat) :=
